@@ -360,6 +360,26 @@ def generated_models():
                 model('table-in%d-out%d-rule%d/%d' % (n_in, n_out, rule[0], rule[1]), body, ['d0'])
     body = gen_decision(0, [('i', 0)], '', table=gen_table(1, 1, []))
     model('table-no-rules', body, ['d0'])
+    # relations: 0..3 columns and rows of every width, the <column> and <row> children in every order (the schema wants columns first, the XML
+    # parser takes them as they come): a row that is narrower or wider than the columns, columns behind rows (seeded change C12_i: rows were judged
+    # against the columns read so far and indexed per column afterwards), as a decision's logic, a context entry and a knowledge-model body
+    import itertools
+    lit = lambda k: '<literalExpression><text>i0 + %d</text></literalExpression>' % k
+    for n_col in (0, 1, 2, 3):
+        for widths in ([], [n_col], [max(0, n_col - 1)], [n_col + 1], [n_col, max(0, n_col - 1)], [max(0, n_col - 1), n_col], [0]):
+            kids = [('c', j) for j in range(n_col)] + [('r', w) for w in widths]
+            orders = set(itertools.permutations(range(len(kids)))) if len(kids) <= 4 else {tuple(range(len(kids))), tuple(reversed(range(len(kids))))}
+            for oi, order in enumerate(sorted(orders)):
+                rel = '    <relation>' + ''.join('<column name="c%d"/>' % kids[k][1] if kids[k][0] == 'c' else '<row>' + ''.join(lit(q) for q in range(kids[k][1])) + '</row>'
+                                                 for k in order) + '</relation>\n'
+                label = 'relation-cols%d-rows%s-order%d' % (n_col, '.'.join(map(str, widths)) or 'none', oi)
+                model(label, gen_decision(0, [('i', 0)], '', table=rel), ['d0'])
+                if oi % 3 == 0:
+                    model(label + '-in-context', gen_decision(0, [('i', 0)], '', table='    <context><contextEntry><variable name="e"/>\n' + rel + '</contextEntry></context>\n'), ['d0'])
+                if oi % 3 == 1:
+                    bkm = ('  <businessKnowledgeModel name="b0" id="_b0"><variable name="b0"/><encapsulatedLogic><formalParameter name="i0"/>\n' + rel +
+                           '</encapsulatedLogic></businessKnowledgeModel>\n')
+                    model(label + '-in-bkm', bkm + gen_decision(0, [('b', 0), ('i', 0)], 'b0(i0)'), ['d0', 'b0'])
     # item definitions: reference cycles
     shapes = {
         'self-ref': [('tA', 'tA', [])], 'ref-cycle2': [('tA', 'tB', []), ('tB', 'tA', [])], 'component-cycle': [('tA', None, [('c', 'tA')])],
